@@ -23,7 +23,11 @@ def run(tier, seed):
     try:
         progs, used = [], {}
         for i in range(n):
-            src, u = gen_core.generate(seed, i, avoid=AVOID, features=FEATURES, label="c04")
+            # two thirds of the programs are the body of a function (top-level declarations are then function locals,
+            # the bindings the register placement is about); half of those without the eval/with bias, because a
+            # direct eval or a with statement in a function keeps all of its bindings in environments
+            src, u = gen_core.generate_form(seed, i, form="plain" if i % 3 == 0 else "main", avoid=AVOID,
+                                            features=FEATURES if i % 3 != 2 else None, label="c04")
             progs.append(src)
             for k, v in u.items():
                 used[k] = used.get(k, 0) + v
@@ -56,7 +60,7 @@ def run(tier, seed):
                            "not generated: %s (open finding K3 is visible only when the binding escapes)" % sorted(AVOID)]
         return chk.finish(
             evaluations=out["jobs"], distinct_nontrivial=len(out["distinct"]),
-            rule="program from the core grammar (biased to eval/with) evaluated under the default configuration and under subsets of "
+            rule="program from the core grammar (one third plain scripts, two thirds function bodies; two thirds biased to eval/with) evaluated under the default configuration and under subsets of "
                  "{locals-in-registers, const-cache, loop-hoist, fused-branch} switched off; non-trivial = printed at least one line; distinct by source hash",
             samples=[p[:500] for p in progs[:3]],
             extra={"programs": len(progs), "configurations_compared": out["compared"], "candidates": out["candidates"],
